@@ -17,12 +17,13 @@ import (
 func init() {
 	Registry["C16"] = Entry{
 		Run: runC16,
-		Explanation: "Decides five structural necessary conditions of 'MRO call text and invocation JSON convert into each other without loss' (thin claim): " +
+		Explanation: "Decides structural necessary conditions of 'MRO call text and invocation JSON convert into each other without loss' (thin claim): " +
 			"I1 numbers travel as text: no JSON decoding reachable from the conversion entry points (BuildCallAst, convertToExp, BuildDataForAst, InvocationData.BuildCallAst, Fork.writeInvocation) has a destination type containing interface{} or a floating-point type, so an integer is never passed through float64 (large integers survive), " +
 			"I2 table agreement: the object key under which SplitExp.encodeJSON writes a split value equals the JSON tag of the field convertToExp reads it from, " +
 			"I3 the mapped status is carried both ways: BuildDataForAst lists an argument in SplitArgs exactly on the edge where its expression is a *SplitExp and stores the list in the result; BuildCallAst wraps the converted value of a listed argument in a SplitExp on every path on which it is not one already, " +
 			"I4 the per-fork invocation is produced from this fork's resolved inputs (resolveInputs(self.forkId, …) feeds BuildCallSource, whose result is what is written to the invocation file), " +
 			"I5 the expected type is walked with the value: stores that unwrap TypeId.MapDim are dominated by a type-switch arm for a map-kind value and stores that decrement ArrayDim by an arm for an array-kind value, in the function or at every call (calls passing the opposite constant for a guarding boolean parameter exempt). " +
+			"I6 every binary search over a slice is dominated by a sort of the same slice. " +
 			"NOT decided: equality of values after a round trip (struct/map decisions, float printing, string escapes - the latter are C09's), that the recorded invocation compiles.",
 		Assumptions: commonAssumptions,
 	}
